@@ -66,6 +66,7 @@ structure Inv0 (src : Array Char) (s : PState) : Prop where
   below : ∀ c ∈ s.comments.toList, c.pos < s.scan.pos
   real : ∀ c ∈ s.comments.toList, RealComment src c
   cur : TokReal src s.current
+  lead : ∀ c ∈ s.leadComments.toList, RealComment src c
 
 /-- the invariant: `Inv0`, and the backtracking mark the parser holds is one from which scanning has
     already succeeded -/
@@ -73,18 +74,20 @@ structure Inv (src : Array Char) (s : PState) : Prop extends Inv0 src s where
   mark : GoodMark src s.prevPos
 
 theorem Inv0.congr {src : Array Char} {s s' : PState} (h : Inv0 src s) (h1 : s'.scan = s.scan)
-    (h2 : s'.comments = s.comments) (h3 : s'.current = s.current) : Inv0 src s' :=
+    (h2 : s'.comments = s.comments) (h3 : s'.current = s.current)
+    (h4 : ∀ c ∈ s'.leadComments.toList, c ∈ s.leadComments.toList) : Inv0 src s' :=
   ⟨by rw [h1]; exact h.src_eq, by rw [h2]; exact h.sorted, by rw [h1, h2]; exact h.below,
-   by rw [h2]; exact h.real, by rw [h3]; exact h.cur⟩
+   by rw [h2]; exact h.real, by rw [h3]; exact h.cur, fun c hc => h.lead c (h4 c hc)⟩
 
 theorem Inv.congr {src : Array Char} {s s' : PState} (h : Inv src s) (h1 : s'.scan = s.scan)
-    (h2 : s'.comments = s.comments) (h3 : s'.prevPos = s.prevPos) (h4 : s'.current = s.current) : Inv src s' :=
-  ⟨h.toInv0.congr h1 h2 h4, by rw [h3]; exact h.mark⟩
+    (h2 : s'.comments = s.comments) (h3 : s'.prevPos = s.prevPos) (h4 : s'.current = s.current)
+    (h5 : ∀ c ∈ s'.leadComments.toList, c ∈ s.leadComments.toList) : Inv src s' :=
+  ⟨h.toInv0.congr h1 h2 h4 h5, by rw [h3]; exact h.mark⟩
 
 /-- setting the current token to a token of the source -/
 theorem Inv.setCurrent {src : Array Char} {s : PState} (h : Inv src s) (c : Option (Nat × Token))
     (hc : TokReal src c) : Inv src { s with current := c } :=
-  ⟨⟨h.src_eq, h.sorted, h.below, h.real, hc⟩, h.mark⟩
+  ⟨⟨h.src_eq, h.sorted, h.below, h.real, hc, h.lead⟩, h.mark⟩
 
 def T {α} (src : Array Char) (R : PState → Prop) (m : P α) (Q : α → PState → Prop) : Prop :=
   ∀ s, Inv src s → R s →
@@ -450,21 +453,46 @@ theorem T.extract {α} {R : PState → Prop} {m : P α} {Q : α → PState → P
 /-- a state change that touches neither the scanner, the mark nor the comment list -/
 theorem T.modifyT {R : PState → Prop} (f : PState → PState)
     (h : ∀ s, (f s).scan = s.scan ∧ (f s).prevPos = s.prevPos ∧ (f s).comments = s.comments ∧
-      (f s).current = s.current) :
+      (f s).current = s.current ∧ ∀ c ∈ (f s).leadComments.toList, c ∈ s.leadComments.toList) :
     T src R (P.modify f) (fun _ _ => True) := by
   intro s hi _
-  obtain ⟨h1, h2, h3, h4⟩ := h s
-  exact ⟨hi.congr h1 h3 h2 h4, trivial⟩
+  obtain ⟨h1, h2, h3, h4, h5⟩ := h s
+  exact ⟨hi.congr h1 h3 h2 h4 h5, trivial⟩
 
 /-- the same, keeping a precondition that the change does not affect -/
 theorem T.modifyF {R : PState → Prop} (f : PState → PState)
     (h : ∀ s, (f s).scan = s.scan ∧ (f s).prevPos = s.prevPos ∧ (f s).comments = s.comments ∧
-      (f s).current = s.current)
+      (f s).current = s.current ∧ ∀ c ∈ (f s).leadComments.toList, c ∈ s.leadComments.toList)
     (hR : ∀ s, R s → R (f s)) :
     T src R (P.modify f) (fun _ s => R s) := by
   intro s hi hr
-  obtain ⟨h1, h2, h3, h4⟩ := h s
-  exact ⟨hi.congr h1 h3 h2 h4, hR s hr⟩
+  obtain ⟨h1, h2, h3, h4, h5⟩ := h s
+  exact ⟨hi.congr h1 h3 h2 h4 h5, hR s hr⟩
+
+/-- forgetting the pending lead comments -/
+theorem T.clearLeadF {R : PState → Prop} (hR : ∀ s, R s → R { s with leadComments := #[] }) :
+    T src R (P.modify fun s => { s with leadComments := #[] }) (fun _ s => R s) :=
+  T.modifyF _ (fun _ => ⟨rfl, rfl, rfl, rfl, fun _ h => (List.not_mem_nil h).elim⟩) hR
+
+theorem T.clearLead {R : PState → Prop} :
+    T src R (P.modify fun s => { s with leadComments := #[] }) (fun _ _ => True) :=
+  T.modifyT _ (fun _ => ⟨rfl, rfl, rfl, rfl, fun _ h => (List.not_mem_nil h).elim⟩)
+
+/-- a pending lead comment is only ever a comment of the source -/
+theorem T.pushLead {R : PState → Prop} (c : Comment) (hc : RealComment src c) :
+    T src R (P.modify fun s => { s with leadComments := s.leadComments.push c }) (fun _ _ => True) := by
+  intro s hi _
+  refine ⟨⟨⟨hi.src_eq, hi.sorted, hi.below, hi.real, hi.cur, ?_⟩, hi.mark⟩, trivial⟩
+  intro x hx
+  simp only [Array.toList_push, List.mem_append, List.mem_singleton] at hx
+  rcases hx with hx | rfl
+  · exact hi.lead x hx
+  · exact hc
+
+/-- move a state-independent fact that follows from precondition and invariant into the context -/
+theorem T.extractI {α} {R : PState → Prop} {m : P α} {Q : α → PState → Prop} {p : Prop}
+    (hp : ∀ s, Inv src s → R s → p) (h : p → T src R m Q) : T src R m Q :=
+  fun s hi hr => h (hp s hi hr) s hi hr
 
 /-- registered specifications (extended with `macro_rules` after each lemma); `hspec` first looks the
     specification up by name: `foo_spec` for a function `foo`, `TblOK.foo` for a table entry `r.foo` -/
@@ -534,8 +562,11 @@ macro_rules
       | with_reducible exact T.bind_never (elseError_spec _ _)
       | with_reducible exact T.bind_never (unexpected_spec _ _ _)
       | with_reducible hspec
-      | with_reducible exact T.modifyF _ (fun _ => ⟨rfl, rfl, rfl, rfl⟩) (fun _ h => h)
-      | with_reducible exact T.modifyT _ (fun _ => ⟨rfl, rfl, rfl, rfl⟩)
+      | with_reducible exact T.modifyF _ (fun _ => ⟨rfl, rfl, rfl, rfl, fun _ h => h⟩) (fun _ h => h)
+      | with_reducible exact T.modifyT _ (fun _ => ⟨rfl, rfl, rfl, rfl, fun _ h => h⟩)
+      | with_reducible exact T.clearLeadF (fun _ h => h)
+      | with_reducible exact T.clearLead
+      | with_reducible exact T.pushLead _ (by assumption)
       | with_reducible exact T.pureE _
       | (with_reducible apply All.intro; intro _)
       | (with_reducible apply AllP.intro; intro _ _)
